@@ -48,7 +48,7 @@ CHECKS = {
             "all lattice triangles (2D radius 2, 3D radius 1) and tetrahedra; Segment length / midpoint over all lattice pairs; RegularPolygon for "
             "lattice centres (on and off the origin), n = 3..8, radii, axes in 3D; Cuboid.area and face areas for orthogonal and sheared edge "
             "triples; == over every permutation of the vertex cycle (true exactly for rotations/reversals), moved vertices, polyhedra with permuted "
-            "and re-rotated faces.",
+            "and re-rotated faces; centre / radius / inradius / area of every regular polygon's image under k*M for an isometry M and k = 2, -1, 1/2.",
             NOTE, TECH, "DESIGN.md section 5, C17"),
     "C15": ("Conic.from_lines over all ordered pairs of distinct lines of {-2..2}^3 (all sign patterns) and Quadric.from_planes over all pairs of "
             "distinct planes of {-1,0,1}^4: degenerate, and components equal the generating pair as an unordered pair of projective classes, single "
@@ -62,7 +62,7 @@ CHECKS = {
             "coincident pair, complex pair), single and collection forms incl. mixed collections; 14 integer 4x4 quadrics of every rank/signature and "
             "Sphere / Cone / Cylinder instances x all lines through lattice pairs, mixed 3D collections of reducible and irreducible members; tangent at "
             "points on the quadric and from outside points, polar values and reciprocity; dual and dual.dual for Quadric, Conic, Circle, Ellipse, "
-            "Sphere, given-dual quadrics and collections; is_tangent against exact h^T adj(A) h = 0, also on quadrics derived after earlier queries.",
+            "Sphere, given-dual quadrics and collections; is_tangent against exact h^T adj(A) h = 0, also on quadrics derived after earlier queries; contains(x, tol) of point and dual quadrics over lattice points / hyperplanes in three dyadic representatives x a ladder of five tolerances (exact form values, margin factor 2).",
             NOTE, TECH, "DESIGN.md section 5, C14"),
     "C13": ("from_points over all 25 052 five-point subsets of the 5x5 lattice with no three collinear (exact conic from the integer null space; "
             "argument orders on a sub-family; from_crossratio with the exact cross ratio), from_tangent over all general 4-subsets of the 3x3 lattice x "
@@ -77,7 +77,7 @@ CHECKS = {
             "single, point-collection and line-collection forms; is_perpendicular / is_parallel / is_cocircular / is_collinear / is_coplanar / "
             "is_concurrent against exact integer determinants over all lattice tuples incl. more than n arguments and mixed collections; angle "
             "bisectors in 2D and 3D; base_point / direction / basis_matrix / general_point for every lattice line and plane, also on objects derived "
-            "(transformed, copied) from objects whose properties were read before.",
+            "(transformed, copied) from objects whose properties were read before; perpendicular(p, plane=E) for every lattice 3D line x every lattice plane through it x points of the line (single, point collection, all-collection forms); the tol parameter of Subspace.contains / is_collinear / is_concurrent / is_coplanar over exact dyadic incidence values x five tolerances.",
             NOTE, TECH, "DESIGN.md section 5, C10"),
     "C11": ("All 840 ordered 4-tuples of parameters from {inf,-2,-1,0,1,2,3} on every line a+xb of the scope (1D, all independent lattice pairs in 2D, "
             "a 3D sub-scope) against the exact rational closed form (whose five symmetry identities are asserted exactly), collection and single "
@@ -111,7 +111,7 @@ CHECKS = {
             "3x3 samples, every lattice offset, ten argument forms / dtype mixes (positional, keyword, lists, int / float / complex): matrix entries, dtype kind, arguments unchanged, images of lattice points and directions.",
             NOTE, TECH, "DESIGN.md section 5, C08"),
     "C19": ("Every pairing of 21 left operand kinds (all index-type patterns of rank<=3 incl. free axes, finite/infinite/non-normalised points, "
-            "collections, lines, planes, quadrics, transformations) x 11 right operand kinds x 8 operations x operator/ufunc form is executed and compared "
+            "collections, lines, planes, quadrics, transformations) x 11 right operand kinds (plus, for points, partners of the opposite finiteness: finite, direction, misaligned mixed collection) x 8 operations x operator/ufunc form is executed and compared "
             "with numpy on the raw arrays (index types of t) or with exact affine point arithmetic; every index expression of length <= rank+1 "
             "(thorough: rank+2, rank 4) over a 13-item grammar (ints, slices, None, Ellipsis, lists, 2-D int arrays, 1-D/2-D boolean masks) x index-type "
             "patterns is executed; the provenance of every result axis is predicted by numpy's rule and validated against numpy itself with a tracer "
@@ -136,7 +136,7 @@ CHECKS = {
             NOTE, TECH, "DESIGN.md section 5, C02"),
     "C20": ("Every matrix of the declared integer families (n=2..5) is pushed through det/adjugate/inv on both sides of the size>=n*n*64 "
             "switch, in int/float/complex, and compared with an exact integer cofactor oracle; null_space/orth over all {-1,0,1} matrices "
-            "by exact rank; roots over all integer cubics with |c|<=3 and all factored cubics with repeated roots; is_multiple over all "
+            "by exact rank (also multiplied by 1000, 37 and 2^-10 with the rank left to the library); roots over all integer cubics with |c|<=3 and all factored cubics with repeated roots; is_multiple over all "
             "lattice pairs and axis forms; hat_matrix over the full lattice. Exhaustive within these bounds, not a sample.",
             NOTE, TECH, "DESIGN.md section 5, C20"),
 }
